@@ -121,6 +121,7 @@ pub fn run(ctx: &mut Ctx) {
         let mut rng = ctx.rng(case);
         let mut cfg = cfg_for(ctx, case);
         cfg.big = case % 3 != 0;
+        cfg.node_subject = case % 5 == 4;
         let (_m, e) = universe(&mut rng, cfg, case);
         let t = tree_of(&e);
         ctx.nontrivial(t.shape_hash());
